@@ -293,6 +293,54 @@ func (l *Link) Logon(role Role, hb int, timeout time.Duration) bool {
 	return false
 }
 
+// Relogon performs a Logout exchange started by the peer followed by a second Logon on the same
+// connection (interval hb). It returns the instant the second Logon was handed to the connection.
+func (l *Link) Relogon(role Role, hb int, timeout time.Duration) (time.Time, bool) {
+	count := func(fs []Frame, typ string) int {
+		n := 0
+		for _, f := range fs {
+			if f.Type == typ {
+				n++
+			}
+		}
+		return n
+	}
+	fs0, _ := l.Frames()
+	logouts, logons := count(fs0, "5"), count(fs0, "A")
+	l.Conn.Feed(l.Peer.Logout())
+	if !l.WaitFrames(timeout, func(fs []Frame) bool { return count(fs, "5") > logouts }) {
+		return time.Time{}, false
+	}
+	deadline := time.Now().Add(timeout)
+	for l.S.IsLogged() && time.Now().Before(deadline) {
+		time.Sleep(time.Millisecond)
+	}
+	// let the inbound handler finish its state changes for the Logout before the next message arrives
+	time.Sleep(20 * time.Millisecond)
+	at := time.Now()
+	l.Conn.Feed(l.Peer.Logon(hb, "0"))
+	for time.Now().Before(deadline) {
+		if l.S.IsLogged() {
+			if role == Acceptor {
+				return at, l.WaitFrames(timeout, func(fs []Frame) bool { return count(fs, "A") > logons })
+			}
+			return at, true
+		}
+		time.Sleep(time.Millisecond)
+	}
+	return at, false
+}
+
+// Since returns the frames written at or after t.
+func Since(fs []Frame, t time.Time) []Frame {
+	for i, f := range fs {
+		if !f.T.Before(t) {
+			return fs[i:]
+		}
+	}
+	return nil
+}
+
 // Shutdown closes whatever is still open.
 func (f *Full) Shutdown() {
 	if f.Acc != nil {
